@@ -131,6 +131,10 @@ type World struct {
 	d      *dump.Dumper
 	ch     *chooser
 	owned  []unsafe.Pointer
+
+	// concurrent mode (C03): no per-op bookkeeping; cleanup cut-off fixed
+	concMode bool
+	cut      time.Time
 }
 
 // now returns a strictly increasing real time.
@@ -370,12 +374,40 @@ func (w *World) Apply(op Op) error {
 	return nil
 }
 
+// applyConc performs op without touching harness bookkeeping (thread bodies
+// of the concurrent programs): logins were created in setup, cleanup uses the
+// instant recorded after the prefix.
+func (w *World) applyConc(op Op) error {
+	switch op.K {
+	case "L":
+		return w.T.RemoteLogin(w.ruls[op.I])
+	case "A":
+		return w.T.AuditdEvent(w.events[op.I][op.J])
+	case "CU":
+		w.T.DeleteUsersWithoutLoginsBefore(w.cut)
+	case "CR":
+		w.T.DeleteRemoteUserLoginsBefore(w.cut)
+	default:
+		panic("bad op " + op.K)
+	}
+	return nil
+}
+
 var tickRE = regexp.MustCompile(`⟦(-?\d+)⟧`)
 
 // Key is the canonical rendering of the tracker's private state. Times are
 // rendered as the rank (among the times present) of the operation during
 // which they were taken, so histories of different length can merge.
 func (w *World) Key() string {
+	if w.concMode {
+		w.d.Time = func(t time.Time) string {
+			if t.Before(w.cut) {
+				return "old"
+			}
+			return "new"
+		}
+		return w.d.String(w.T)
+	}
 	w.d.Time = func(t time.Time) string {
 		// index j with ticks[j] <= t < ticks[j+1]
 		j := sort.Search(len(w.ticks), func(i int) bool { return w.ticks[i].After(t) }) - 1
